@@ -600,7 +600,12 @@ func cmdCheck(args []string) {
 		for _, s := range infra {
 			fmt.Fprintln(os.Stderr, s)
 		}
-		die(2, "infrastructure failure while checking %s (no verdict)", prop)
+		if len(confirmed) == 0 {
+			die(2, "infrastructure failure while checking %s (no verdict)", prop)
+		}
+		// A violation that was found and reproduced from its replay file stands on its own: trouble in another
+		// batch (a run that wedged the simulator, for instance) does not take it back.
+		fmt.Fprintf(os.Stderr, "note: %d worker batch(es) of this check ended without a result; the confirmed violation is reported all the same\n", len(infra))
 	}
 
 	// aggregate
